@@ -65,6 +65,9 @@ Proof.
   [unfold g_side_plane0 | unfold g_side_plane1 | unfold g_side_plane2]; vec_eq.
 Qed.
 
+Lemma side_vertices_spec : forall sp o m, g_side_strata_point sp o m = place sp o m /\ g_solid_strata_point sp o m = place sp o m.
+Proof. intros; destr; split; [unfold g_side_strata_point | unfold g_solid_strata_point]; vec_eq. Qed.
+
 Lemma uv_localise_spec : forall ax o m, g_uv_localise ax o m = uvplace ax o m.
 Proof. intros; destr; unfold g_uv_localise; vec_eq. Qed.
 
